@@ -24,6 +24,10 @@ type Op struct {
 	Kind    string
 	Enabled func() bool // nil: always enabled
 	Yield   bool
+	// IO marks an input/output call (an FS operation): with Explorer.IOBound > 0, switching away from
+	// a thread parked at such a point is paid from the I/O budget instead of the preemption budget
+	// ("a thread waiting for the disk is descheduled").
+	IO bool
 }
 
 // Thread is a managed goroutine.
@@ -67,6 +71,8 @@ type PointInfo struct {
 	Env        bool // environment answer (Choose) rather than a scheduling decision
 	RunEnabled bool // the running thread was still enabled (alternative != 0 is a preemption)
 	Devs       int  // deviations (preemptions + non-default env answers) before this point
+	IO         bool // the running thread is parked at an I/O point
+	IODevs     int  // with Explorer.IOBound > 0: switches away from a thread at an I/O point before this point (not counted in Devs)
 	EnvDevs    int  // with a separate environment budget (Explorer.EnvBound > 0): non-default env answers before this point (not counted in Devs)
 	Key        uint64
 	Pruned     bool
@@ -82,6 +88,7 @@ type Sched struct {
 	Points    []PointInfo
 	devs      int
 	envDevs   int
+	ioDevs    int
 	Steps     int
 	Deadlock  string
 	Livelock  bool
